@@ -80,6 +80,25 @@ var specs = map[string]*spec{
 	},
 }
 
+func init() {
+	chain := [][2]string{{"null", "invited"}, {"null", "requested"}, {"invited", "requested"}, {"requested", "responded"},
+		{"responded", "completed"}}
+	specs["didex"] = &spec{
+		Edges: chain, Terminal: []string{"completed", "abandoned"}, Abandon: "abandoned", Start: "null",
+		Targets: []specTarget{
+			{"invitation", false, "invited"}, {"oob-invitation", false, "invited"}, {"request", false, "requested"},
+			{"response", false, "responded"}, {"ack", false, "completed"}, {"complete", false, "completed"},
+		},
+	}
+	specs["legacy"] = &spec{
+		Edges: chain, Terminal: []string{"completed"}, Abandon: "abandoned", Start: "null",
+		Targets: []specTarget{
+			{"invitation", false, "invited"}, {"request", false, "requested"}, {"response", false, "responded"},
+			{"ack", false, "completed"},
+		},
+	}
+}
+
 func (s *spec) terminal(a string) bool {
 	for _, t := range s.Terminal {
 		if t == a {
